@@ -102,7 +102,7 @@ fn lfo_freq(r: &mut Rng, sr: f32) -> u32 {
 fn lfo_phase(r: &mut Rng) -> u32 {
     match r.below(10) {
         0 => any_f32_bits(r),
-        1 => r.pick(&[b(0.0), b(0.25), b(0.5), b(0.75), b(1.0), b(1.5), b(-0.25), b(1e9), b(-1e9)]),
+        1 => r.pick(&[b(0.0), b(0.25), b(0.5), b(0.75), b(1.0), b(1.5), b(-0.25), b(1e9), b(-1e9), b(1e10), b(-1e10), b(4.3e9), b(3e38), b(-3e38), b(16777216.0), b(8388608.5)]),
         2 => b(f32::from_bits(b(1.0) - 1)),
         3 => b((r.unit() * 100.0 - 50.0) as f32),
         4 => b((r.below(1024) as f32 + r.pick(&[0.0f32, 0.5, 0.999_939])) / 1024.0),
@@ -388,12 +388,25 @@ pub fn glide(r: &mut Rng, n: usize, out: &mut Vec<String>) {
     }
 }
 
+
+/// sample rates for which the harness has a monomorphised controller of exactly the helper's capacity
+pub fn ribbon_rates() -> Vec<(f32, usize)> {
+    let mut v = Vec::new();
+    for sr in [100u32, 250, 500, 750, 1000, 1500, 2500, 4000, 8000, 10000, 11025, 12500, 15625, 22050, 32000, 37500, 44100, 48000, 96000, 192000] {
+        let cap = synth_utils::ribbon_controller::sample_rate_to_capacity(std::hint::black_box(sr));
+        if RIBBON_CAPS.contains(&cap) {
+            v.push((sr as f32, cap));
+        }
+    }
+    v
+}
+
 pub fn ribbon(r: &mut Rng, n: usize, out: &mut Vec<String>) {
-    let rates: [(f32, usize); 8] =
-        [(100.0, 2), (1000.0, 18), (4000.0, 69), (10000.0, 171), (22050.0, 375), (44100.0, 750), (48000.0, 817), (192000.0, 3265)];
+    let rates = ribbon_rates();
+    let small: Vec<(f32, usize)> = rates.iter().copied().filter(|x| x.1 <= 800).collect();
     let mut left = n;
     while left > 0 {
-        let (sr, cap) = r.pick(&rates[..6]);
+        let (sr, cap) = r.pick(&small);
         let (sr, cap) = if r.chance(1, 10) { (sr, r.pick(&RIBBON_CAPS)) } else if r.chance(1, 15) { r.pick(&rates) } else { (sr, cap) };
         let (sp, dr, pu) = match r.below(6) {
             0 => (20e3f32, 820.0f32, 1e6f32),
@@ -812,12 +825,16 @@ pub fn glide_sched(r: &mut Rng, n: usize, out: &mut Vec<String>) {
 
 /// ribbon with helper-sized buffers and sensible resistors: taps, glitches, multi-level presses
 pub fn ribbon_taps(r: &mut Rng, n: usize, out: &mut Vec<String>) {
-    let rates: [(f32, usize); 6] = [(100.0, 2), (1000.0, 18), (4000.0, 69), (10000.0, 171), (22050.0, 375), (44100.0, 750)];
+    let all = ribbon_rates();
+    let small: Vec<(f32, usize)> = all.iter().copied().filter(|x| x.1 <= 300).collect();
+    let mid: Vec<(f32, usize)> = all.iter().copied().filter(|x| x.1 <= 800).collect();
     let mut left = n as i64;
     while left > 0 {
-        let k = if r.chance(1, 6) { 6 } else { 4 };
-        let (sr, cap) = r.pick(&rates[..k]);
-        let (sp, dr, pu) = match r.below(4) {
+        let (sr, cap) = if r.chance(1, 6) { r.pick(&mid) } else { r.pick(&small) };
+        let edge_case = r.chance(1, 10);
+        let (sr, cap) = if edge_case { (192000.0f32, 3265usize) } else { (sr, cap) };
+        let (sp, dr, pu) = match if edge_case { 9 } else { r.below(4) } {
+            9 => (10e3f32, 1.0f32, 1e12f32),
             0 => (20e3f32, 820.0f32, 1e6f32),
             1 => (10e3, 100.0, 10.1e3),
             2 => (r.log_uniform(5e3, 1e5) as f32, r.log_uniform(10.0, 2e3) as f32, r.log_uniform(2e5, 1e7) as f32),
@@ -826,6 +843,16 @@ pub fn ribbon_taps(r: &mut Rng, n: usize, out: &mut Vec<String>) {
         out.push(format!("ribbon new {} {} {} {} {}", cap, b(sr), b(sp), b(dr), b(pu)));
         let boundary = 1.0 - (dr / (dr + sp));
         let need = cap + (sr as usize) / 1000;
+        if edge_case {
+            // a whole press one ulp under the in-range boundary: the rescaled average must still not exceed 1.0
+            let x = f32::from_bits(b(boundary) - 1);
+            for _ in 0..need + 3 {
+                out.push(format!("poll {}", b(x)));
+            }
+            out.push(format!("poll {}", b(1.0)));
+            left -= need as i64;
+            continue;
+        }
         for _ in 0..r.range(3, 9) {
             let run = match r.below(7) {
                 0 => 1,
@@ -1097,8 +1124,7 @@ pub fn glide_in(r: &mut Rng, n: usize, out: &mut Vec<String>) {
 }
 
 pub fn ribbon_in(r: &mut Rng, n: usize, out: &mut Vec<String>) {
-    let rates: [(f32, usize); 8] =
-        [(100.0, 2), (1000.0, 18), (4000.0, 69), (10000.0, 171), (22050.0, 375), (44100.0, 750), (48000.0, 817), (192000.0, 3265)];
+    let rates = ribbon_rates();
     let mut left = n as i64;
     while left > 0 {
         let (sr, cap) = r.pick(&rates);
@@ -1150,10 +1176,20 @@ pub fn quant_any(r: &mut Rng, n: usize, out: &mut Vec<String>) {
 pub fn midi_bytes(r: &mut Rng, n: usize, out: &mut Vec<String>) {
     let mut left = n;
     while left > 0 {
-        out.push(format!("midi new {}", r.below(256)));
+        let listen = r.below(256);
+        out.push(format!("midi new {}", listen));
         let seg = (r.range(50, 600) as usize).min(left);
         left -= seg;
         let biased = r.chance(1, 2);
+        if r.chance(1, 5) {
+            // more note-ons than the held-note buffer takes, in running status on some channel
+            let ch = if r.chance(3, 4) { listen.min(15) } else { r.below(16) };
+            out.push(format!("byte {}", 0x90 + ch));
+            for _ in 0..r.range(33, 60) {
+                out.push(format!("byte {}", r.below(128)));
+                out.push(format!("byte {}", r.range(1, 127)));
+            }
+        }
         for _ in 0..seg {
             let by = if biased && r.chance(1, 3) { r.range(0x80, 0xFF) } else { r.below(256) };
             out.push(format!("byte {}", by));
